@@ -16,6 +16,10 @@ from .core import AnalysisError, Check, VERIF
 
 
 def main(argv=None):
+    if os.environ.get("PYTHONHASHSEED") != "0" and argv is None:
+        # sympy's normal forms can depend on set iteration order: fix the hash seed so that a verdict is reproducible
+        os.environ["PYTHONHASHSEED"] = "0"
+        os.execv(sys.executable, [sys.executable, "-m", "vcheck.run"] + sys.argv[1:])
     ap = argparse.ArgumentParser()
     ap.add_argument("pid", nargs="?")
     ap.add_argument("--tier", default=os.environ.get("VERIF_TIER", "quick"))
